@@ -39,7 +39,13 @@ x inlet subsets (all for <= 3 cells, the empty set + random ones beyond) x buffe
 ample}; structured — uniform-direction grids, serpentine single-chain grids (path length = nval - 1), 1- and
 2-column grids (diagonal steps with |Δidx| = 1), spanning trees draining to an outlet with inlets chosen ON the
 tree, cycles through and off the outlet; random grids to 8x8 (thorough 12x12) over the same alphabet plus other
-invalid codes; malformed — cells / outlets / inlets / river starts off the grid, nval 0 and 1, the default
+invalid codes; histories — 2-8 calls on ONE Catchment object (D delineate_area, F compute_flowpathlengths, S / G
+catchment.flowdir.data edited in place / re-assigned, U / W / R queries, E the arrays returned by the previous call
+overwritten in place, K clone (source wiped), P pickle round trip, O edit of the grid handed to the constructor):
+re-delineation with another outlet or other inlets whose area has the SAME size, a failed delineation between two
+good ones, tables asked after an edit — every answer compared with the Lean state machine (`hist` request) and with
+the oracle evaluated on the state the object has at that step (silent after O / K / P, where the property does not say
+which grid the object holds); malformed — cells / outlets / inlets / river starts off the grid, nval 0 and 1, the default
 nval = 10^6. A case is non-trivial when the reply is not an error and not empty.
 """
 import json
@@ -1028,10 +1034,26 @@ def history_steps(ctx, etab, nrows, ncols, fd0, op, r, case, tag):
     if len(res) != len(steps):
         ctx.disagree("C06 hist: the worker returned a wrong number of step replies", {"request": case})
         return ["F"], []
+    real_ctx = ctx
+
+    class Quiet:
+        """after a step whose effect on "the grid of the catchment" the property does not fix (an edit of the grid
+        handed to the constructor, a clone whose source is wiped, a pickle round trip) the oracle is silent: the
+        answers are still compared with the model (strict), but no failing input is claimed"""
+        def count(self, *a, **k):
+            real_ctx.count(*a, **k)
+
+        def finding(self, *a, **k):
+            pass
+
+        def disagree(self, *a, **k):
+            real_ctx.disagree(*a, **k)
     for i, (st, rr) in enumerate(zip(steps, res)):
         k = st[0]
         c2 = {**case, "step": i}
         name = tag.split("/")[-1]
+        if k in ("O", "K", "P"):
+            ctx = Quiet()
         if k == "D":
             o, inl, nval = st[1], st[2] or [], st[3]
             outlet = o
